@@ -28,6 +28,8 @@ import (
 	"encoding/json"
 	"flag"
 	"fmt"
+	"io"
+	"log"
 	"net/http"
 	"net/http/httptest"
 	"net/url"
@@ -61,11 +63,17 @@ type Case struct {
 	Post  []string `json:"post,omitempty"` // … and after it
 	Flip  int    `json:"flip,omitempty"`
 	Trunc int    `json:"trunc,omitempty"`
+	// the HTTP layer
+	Meth  string `json:"m,omitempty"`  // "" (GET or POST as HTTP says) | HEAD | PUT | DELETE
+	Path  string `json:"pa,omitempty"` // "" = /scep/<name> | slash | rest | deep | root | rootslash
+	PName string `json:"pn,omitempty"` // "" = the provisioner | nosuch | acmeprov | %25zz | escaped
+	Op    string `json:"op,omitempty"` // "" = PKIOperation | GetCACert | GetCACaps | none | empty | bogus | badquery
 }
 
 type world struct {
-	ca *testCA
-	cl *clients
+	cas map[string]*testCA
+	ca  *testCA // the authority of the case being run
+	cl  *clients
 }
 
 func (w *world) build(k *Case) ([]byte, error) {
@@ -99,28 +107,99 @@ func (w *world) build(k *Case) ([]byte, error) {
 	return raw, nil
 }
 
+// httpShape is what the model is told about the HTTP request (all known by construction).
+type httpShape struct {
+	meth, path, lookup, op string
+	qok                    bool
+}
+
 // request renders the HTTP request; httpOK says whether decodeRequest hands the handler the
 // raw message unchanged (false: it refuses the request before PKIOperation).
-func (w *world) request(k *Case, raw []byte) (*http.Request, bool, []byte) {
-	base := "/scep/" + k.Prov + "?operation=PKIOperation"
+func (w *world) request(k *Case, raw []byte) (*http.Request, bool, []byte, httpShape) {
+	sh := httpShape{meth: "get", path: "name", lookup: "scep", op: "pki", qok: true}
+	name := k.Prov
+	switch k.PName {
+	case "nosuch":
+		name, sh.lookup = "nosuch", "missing"
+	case "acmeprov":
+		name, sh.lookup = "acmeprov", "other"
+		if w.ca.kind != "" {
+			sh.lookup = "missing"
+		}
+	case "%25zz":
+		name, sh.lookup = "%25zz", "badesc"
+	case "escaped": // an escaped spelling of the provisioner's own name
+		name = "%" + fmt.Sprintf("%02x", k.Prov[0]) + k.Prov[1:]
+	}
+	path := "/scep/" + name
+	switch k.Path {
+	case "slash":
+		path, sh.path = path+"/", "rest"
+	case "rest":
+		path, sh.path = path+"/pkiclient.exe", "rest"
+	case "deep":
+		path, sh.path = path+"/a/b/pkiclient.exe", "rest"
+	case "root":
+		path, sh.path = "/scep", "root"
+	case "rootslash":
+		path, sh.path = "/scep/", "root"
+	}
+	q := "operation=PKIOperation"
+	switch k.Op {
+	case "GetCACert":
+		q, sh.op = "operation=GetCACert", "cacert"
+	case "GetCACaps":
+		q, sh.op = "operation=GetCACaps", "cacaps"
+	case "none":
+		q, sh.op = "x=1", "none"
+	case "empty":
+		q, sh.op = "operation=", "none"
+	case "bogus":
+		q, sh.op = "operation=GetNextCACert", "other"
+	case "badquery":
+		q, sh.qok = "operation=PKIOperation&y=%zz", false
+	}
+	base := path + "?" + q
 	b64 := base64.StdEncoding.EncodeToString(raw)
+	meth := http.MethodGet
+	var body []byte
+	httpOK, sent := true, raw
 	switch k.HTTP {
 	case "post":
-		return httptest.NewRequest(http.MethodPost, base, bytes.NewReader(raw)), true, raw
+		meth, body = http.MethodPost, raw
 	case "postb64": // body is base64 text: handed to the parser as is
-		return httptest.NewRequest(http.MethodPost, base, strings.NewReader(b64)), true, []byte(b64)
+		meth, body, sent = http.MethodPost, []byte(b64), []byte(b64)
 	case "getmac": // '+' and '/' not escaped, '=' escaped (the macOS work-around path)
-		return httptest.NewRequest(http.MethodGet, base+"&message="+strings.ReplaceAll(b64, "=", "%3D"), nil), true, raw
+		base += "&message=" + strings.ReplaceAll(b64, "=", "%3D")
 	case "getbad":
-		return httptest.NewRequest(http.MethodGet, base+"&message=%21%21"+url.QueryEscape(b64), nil), false, nil
+		base += "&message=%21%21" + url.QueryEscape(b64)
+		httpOK, sent = false, nil
 	case "getempty":
-		return httptest.NewRequest(http.MethodGet, base+"&message=", nil), false, nil
+		base += "&message="
+		httpOK, sent = false, nil
 	default:
-		return httptest.NewRequest(http.MethodGet, base+"&message="+url.QueryEscape(b64), nil), true, raw
+		base += "&message=" + url.QueryEscape(b64)
 	}
+	if meth == http.MethodPost {
+		sh.meth = "post"
+	}
+	switch k.Meth {
+	case "HEAD":
+		meth, sh.meth = http.MethodHead, "head"
+	case "PUT", "DELETE":
+		meth, sh.meth = k.Meth, "other"
+	}
+	var rd *bytes.Reader
+	if body != nil {
+		rd = bytes.NewReader(body)
+		return httptest.NewRequest(meth, base, rd), httpOK, sent, sh
+	}
+	return httptest.NewRequest(meth, base, nil), httpOK, sent, sh
 }
 
 type reply struct {
+	names []string // names (any kind) of the issued certificate
+	subj  string   // its subject common name
 	enc   bool   // success reply that the requester can decrypt
 	kind  string // ok | fail | http | crash | badreply
 	info  string
@@ -132,6 +211,9 @@ type reply struct {
 // parseReply reads the CertRep the way a client does: verify the signature, identify the
 // signer, read pkiStatus, decrypt the content with the requester's key.
 func (w *world) parseReply(k *Case, f fields, code int, body []byte) reply {
+	if code == http.StatusNotFound || code == http.StatusMethodNotAllowed {
+		return reply{kind: "http", info: fmt.Sprint(code)}
+	}
 	if code != http.StatusOK {
 		return reply{kind: "http", info: fmt.Sprint(code/100) + "xx"}
 	}
@@ -143,8 +225,11 @@ func (w *world) parseReply(k *Case, f fields, code int, body []byte) reply {
 		return reply{kind: "badreply", info: "verify"}
 	}
 	signer := "other"
-	if sc := p7.GetOnlySigner(); sc != nil && sc.Equal(w.ca.caCert) {
+	sc := p7.GetOnlySigner()
+	if sc != nil && sc.Equal(w.ca.caCert) {
 		signer = "ca"
+	} else if dk := w.ca.decs[k.Prov]; sc != nil && dk != nil && sc.Equal(dk.cert) {
+		signer = "prov"
 	}
 	var mt smallscep.MessageType
 	if p7.UnmarshalSignedAttribute(oidMessageType, &mt) != nil || mt != smallscep.CertRep {
@@ -161,7 +246,7 @@ func (w *world) parseReply(k *Case, f fields, code int, body []byte) reply {
 	}
 	outer := 0
 	for _, crt := range p7.Certificates {
-		if !crt.Equal(w.ca.caCert) {
+		if sc == nil || !crt.Equal(sc) {
 			outer++
 		}
 	}
@@ -170,6 +255,7 @@ func (w *world) parseReply(k *Case, f fields, code int, body []byte) reply {
 	case smallscep.SUCCESS:
 		r := reply{kind: "ok", outer: outer}
 		enc, pk := "0", "0"
+		issued := " subj=! names=-"
 		var rcpt []string
 		nrcpt := countRecipients(p7.Content)
 		if p7c, err := pkcs7.Parse(p7.Content); err == nil {
@@ -178,6 +264,12 @@ func (w *world) parseReply(k *Case, f fields, code int, body []byte) reply {
 			for i, crt := range f.Certs {
 				own := w.cl.owner(crt)
 				if own == nil {
+					// a certificate whose key nobody holds (a bit flipped inside a carried key): it
+					// cannot be tried; it is counted as a recipient when the envelope has one
+					// RecipientInfo per certificate of the request
+					if nrcpt == len(f.Certs) {
+						rcpt = append(rcpt, fmt.Sprint(i))
+					}
 					continue
 				}
 				if ct, err := p7c.Decrypt(crt, own.key); err == nil {
@@ -193,6 +285,31 @@ func (w *world) parseReply(k *Case, f fields, code int, body []byte) reply {
 			if content != nil {
 				if certs, err := smallscep.CACerts(content); err == nil {
 					r.inner = len(certs)
+					if len(certs) > 0 {
+						var l []string
+						for _, x := range certs[0].DNSNames {
+							l = append(l, "d:"+c.X(x))
+						}
+						for _, x := range certs[0].EmailAddresses {
+							l = append(l, "e:"+c.X(x))
+						}
+						for _, x := range certs[0].IPAddresses {
+							l = append(l, "i:"+c.X(x.String()))
+						}
+						for _, x := range certs[0].URIs {
+							l = append(l, "u:"+c.X(x.String()))
+						}
+						issued = " subj=" + c.X(certs[0].Subject.CommonName) + " names=" + c.List(l)
+						r.subj = certs[0].Subject.CommonName
+						r.names = append(r.names, certs[0].DNSNames...)
+						r.names = append(r.names, certs[0].EmailAddresses...)
+						for _, x := range certs[0].IPAddresses {
+							r.names = append(r.names, x.String())
+						}
+						for _, x := range certs[0].URIs {
+							r.names = append(r.names, x.String())
+						}
+					}
 					if len(certs) > 0 && certs[0].CheckSignatureFrom(w.ca.caCert) == nil {
 						if pub, ok := f.CSRKey.(interface{ Equal(x crypto.PublicKey) bool }); ok && pub.Equal(certs[0].PublicKey) {
 							pk = "1"
@@ -205,7 +322,7 @@ func (w *world) parseReply(k *Case, f fields, code int, body []byte) reply {
 		if len(rcpt) > 0 {
 			rc = strings.Join(rcpt, ",")
 		}
-		r.extra = fmt.Sprintf(" signer=%s enc=%s pk=%s nonce=%s rcpt=%s nrcpt=%d", signer, enc, pk, nonce, rc, nrcpt)
+		r.extra = fmt.Sprintf(" signer=%s enc=%s pk=%s nonce=%s rcpt=%s nrcpt=%d%s", signer, enc, pk, nonce, rc, nrcpt, issued)
 		r.enc = enc == "1"
 		return r
 	case smallscep.FAILURE:
@@ -231,12 +348,14 @@ func (r reply) String() string {
 		return "http" + r.info
 	case "crash":
 		return "crash"
+	case "other":
+		return r.info
 	}
 	return "badreply:" + r.info
 }
 
 // serve runs the real handler; a panic is reported as crash.
-func (w *world) serve(req *http.Request) (code int, body []byte, crashed bool) {
+func (w *world) serve(req *http.Request) (code int, body []byte, ctype string, crashed bool) {
 	rec := httptest.NewRecorder()
 	defer func() {
 		if p := recover(); p != nil {
@@ -244,40 +363,100 @@ func (w *world) serve(req *http.Request) (code int, body []byte, crashed bool) {
 		}
 	}()
 	w.ca.handler.ServeHTTP(rec, req)
-	return rec.Code, rec.Body.Bytes(), false
+	return rec.Code, rec.Body.Bytes(), rec.Header().Get("Content-Type"), false
+}
+
+// certTag names a certificate of a GetCACert answer the way the model does.
+func (w *world) certTag(k *Case, crt *x509.Certificate) string {
+	switch {
+	case w.ca.decs[k.Prov] != nil && crt.Equal(w.ca.decs[k.Prov].cert):
+		return "pd"
+	case crt.Equal(w.ca.caCert):
+		return "i0"
+	case crt.Equal(w.ca.root):
+		return "r0"
+	}
+	return "?"
+}
+
+// parseOther reads the answer to GetCACert / GetCACaps.
+func (w *world) parseOther(k *Case, op string, code int, body []byte, ctype string) string {
+	if code == http.StatusNotFound || code == http.StatusMethodNotAllowed {
+		return fmt.Sprintf("http%d", code)
+	}
+	if code != http.StatusOK {
+		return fmt.Sprintf("http%dxx", code/100)
+	}
+	switch op {
+	case "cacert":
+		var certs []*x509.Certificate
+		ra := "0"
+		switch ctype {
+		case "application/x-x509-ca-cert":
+			crt, err := x509.ParseCertificate(body)
+			if err != nil {
+				return "badreply:cacert"
+			}
+			certs = []*x509.Certificate{crt}
+		case "application/x-x509-ca-ra-cert":
+			cs, err := smallscep.CACerts(body)
+			if err != nil {
+				return "badreply:cacerts"
+			}
+			certs, ra = cs, "1"
+		default:
+			return "badreply:ctype"
+		}
+		var tags []string
+		for _, crt := range certs {
+			tags = append(tags, w.certTag(k, crt))
+		}
+		return "cacert ra=" + ra + " certs=" + c.List(tags)
+	case "cacaps":
+		if !strings.HasPrefix(ctype, "text/plain") {
+			return "badreply:ctype"
+		}
+		return "cacaps " + c.List(strings.Split(string(body), "\r\n"))
+	}
+	return "badreply:unexpected200"
 }
 
 // run executes one case: (model input line, implementation output, spec projection, spec expectation)
 func (w *world) run(k *Case) (line, impl, specImpl, specWant string, ok bool) {
 	ps := specByName(k.Prov)
-	if ps == nil || w.cl.keys[k.Key] == nil {
+	if ps == nil || w.cl.keys[k.Key] == nil || w.cas[ps.CA] == nil {
 		return "", "", "", "", false
 	}
+	w.ca = w.cas[ps.CA]
 	raw, err := w.build(k)
 	if err != nil {
 		return "", "", "", "", false
 	}
-	req, httpOK, sent := w.request(k, raw)
-	var f fields
+	req, httpOK, sent, sh := w.request(k, raw)
+	f := fields{Signer: -1}
 	if httpOK {
-		f = analyze(sent, w.ca)
+		f = analyze(sent, w.ca, ps)
 	}
 	js, _ := json.Marshal(k)
-	line = modelLine(f, ps, httpOK) + " case=x" + hex.EncodeToString(js)
+	line = modelLine(f, ps, httpOK, sh, w.ca) + " case=x" + hex.EncodeToString(js)
 
 	w.ca.hooks.reset()
 	before := w.ca.store.count()
-	code, body, crashed := w.serve(req)
+	code, body, ctype, crashed := w.serve(req)
 	stored := w.ca.store.count() - before
 	hs := w.ca.hooks.snapshot()
 	calls, last, seen := hs.calls, hs.last, hs.seen
 	var r reply
-	if crashed {
+	switch {
+	case crashed:
 		r = reply{kind: "crash"}
-	} else {
+	case code == http.StatusOK && ctype != "application/x-pki-message":
+		// GetCACert / GetCACaps answers (or anything else that is not a CertRep)
+		r = reply{kind: "other", info: w.parseOther(k, sh.op, code, body, ctype)}
+	default:
 		r = w.parseReply(k, f, code, body)
 	}
-	impl = fmt.Sprintf("%s hooks=%d notif=%d db=%d", r.String(), calls, hs.notif, stored)
+	impl = fmt.Sprintf("%s hooks=%d http=%d notif=%d db=%d", r.String(), calls, hs.http, hs.notif, stored)
 	if hs.misroute {
 		impl += " route=bad" // a challenge went to a webhook not configured for challenges, or vice versa
 	}
@@ -295,11 +474,11 @@ func (w *world) run(k *Case) (line, impl, specImpl, specWant string, ok bool) {
 		if h.Kind == "scep" && h.CT != "ssh" {
 			nChallengeHooks++
 			switch h.Path {
-			case "allow":
+			case "allow", "r5allow":
 				anyAllow = true
-			case "match":
+			case "match", "r5match":
 				anyAllow = anyAllow || hookDecision(f.CP)
-			case "e400", "json":
+			case "e400", "json", "r55":
 				anyErr = true
 			}
 		}
@@ -325,8 +504,32 @@ func (w *world) run(k *Case) (line, impl, specImpl, specWant string, ok bool) {
 	if r.kind == "ok" && !r.enc {
 		specImpl = "cert:notrequester"
 	}
+	// third clause (what "results in a certificate" means for the requester): the certificate names
+	// nothing the CSR did not name
+	foreign := false
+	if r.kind == "ok" {
+		allowed := map[string]bool{f.CN: true}
+		for _, t := range f.Sans {
+			if i := strings.Index(t, ":"); i >= 0 {
+				if v, err := c.UnX(t[i+1:]); err == nil {
+					allowed[v] = true
+				}
+			}
+		}
+		for _, n := range r.names {
+			if !allowed[n] {
+				foreign = true
+			}
+		}
+		if r.subj != "" && !allowed[r.subj] {
+			foreign = true
+		}
+	}
+	if foreign && specImpl == "cert" {
+		specImpl = "cert:foreignname"
+	}
 	specWant = specImpl
-	if r.kind == "ok" && !r.enc {
+	if r.kind == "ok" && (!r.enc || foreign) {
 		specWant = "cert"
 	}
 	if method != "none" && !accepted {
@@ -386,6 +589,9 @@ func defaults(k *Case) {
 func matrix() []*Case {
 	var out []*Case
 	for _, ps := range provSpecs {
+		if ps.CornerOnly {
+			continue
+		}
 		for _, mt := range msgTypes {
 			csrType := mt == "19" || mt == "17" || mt == "18"
 			// the types the parser or the dispatch refuse are enumerated with three configurations
@@ -494,6 +700,58 @@ func corner() []*Case {
 		add(Case{Prov: "static", MT: mt, Pre: []string{"o1"}})
 		add(Case{Prov: "hmn", MT: mt, HasC: true, Chal: hookSecret, Pre: []string{"o1"}})
 	}
+	// ---- HTTP layer: routes, methods, provisioner lookup, operations
+	for _, h := range []string{"get", "post"} {
+		for _, pa := range []string{"slash", "rest", "deep", "root", "rootslash"} {
+			add(Case{Prov: "static", MT: "19", HTTP: h, HasC: true, Chal: staticSecret, Path: pa})
+		}
+		for _, pn := range []string{"nosuch", "acmeprov", "%25zz", "escaped"} {
+			add(Case{Prov: "static", MT: "19", HTTP: h, HasC: true, Chal: staticSecret, PName: pn})
+		}
+		for _, op := range []string{"GetCACert", "GetCACaps", "none", "empty", "bogus", "badquery"} {
+			add(Case{Prov: "static", MT: "19", HTTP: h, HasC: true, Chal: staticSecret, Op: op})
+		}
+		for _, m := range []string{"HEAD", "PUT", "DELETE"} {
+			add(Case{Prov: "static", MT: "19", HTTP: h, HasC: true, Chal: staticSecret, Meth: m})
+			add(Case{Prov: "none", MT: "18", HTTP: h, Meth: m, Op: "GetCACert"})
+		}
+	}
+	add(Case{Prov: "static", MT: "19", HasC: true, Chal: staticSecret, Meth: "HEAD", Path: "rest"})
+	add(Case{Prov: "static", MT: "19", HasC: true, Chal: staticSecret, Meth: "PUT", Path: "root"})
+	add(Case{Prov: "static", MT: "19", HasC: true, Chal: staticSecret, PName: "nosuch", Op: "GetCACert", HTTP: "get"})
+	add(Case{Prov: "static", MT: "19", HasC: true, Chal: staticSecret, PName: "acmeprov", Op: "GetCACaps", HTTP: "get"})
+	// ---- GetCACert / GetCACaps for every configuration of decrypter certificate and chain options
+	for _, pn := range []string{"none", "static", "pdec", "pdecx", "pcert", "pcaps", "pexint", "edec", "ehook", "enone"} {
+		for _, op := range []string{"GetCACert", "GetCACaps"} {
+			add(Case{Prov: pn, MT: "19", HTTP: "get", Op: op})
+		}
+		add(Case{Prov: pn, MT: "19", HTTP: "get", Op: "GetCACert", Path: "rest"})
+	}
+	// ---- decrypter / signer selection: who the request is enveloped for
+	for _, pn := range []string{"pdec", "pdecx", "pcert", "edec", "enone", "static"} {
+		for _, rc := range []string{"", "ca", "prov", "other"} {
+			for _, mt := range []string{"19", "18"} {
+				add(Case{Prov: pn, MT: mt, HasC: true, Chal: staticSecret, Rcpt: rc})
+			}
+		}
+		add(Case{Prov: pn, MT: "19"})
+		add(Case{Prov: pn, MT: "19", HTTP: "get", HasC: true, Chal: staticSecret})
+		add(Case{Prov: pn, MT: "3", Env: "degen1"})
+	}
+	add(Case{Prov: "ehook", MT: "19", HasC: true, Chal: hookSecret})
+	add(Case{Prov: "ehook", MT: "17", HasC: true, Chal: "no"})
+	// ---- names of the issued certificate
+	for subj := 0; subj <= 8; subj++ {
+		add(Case{Prov: "static", MT: "19", HasC: true, Chal: staticSecret, Subj: subj})
+		add(Case{Prov: "pforce", MT: "19", HasC: true, Chal: staticSecret, Subj: subj})
+		add(Case{Prov: "pforce", MT: "18", HTTP: "get", HasC: true, Chal: staticSecret, Subj: subj})
+	}
+	// ---- webhook retries (each 503 costs the code's one-second pause)
+	add(Case{Prov: "h5a", MT: "19", HasC: true, Chal: "x"})
+	add(Case{Prov: "h5d", MT: "19", HasC: true, Chal: "x"})
+	add(Case{Prov: "h55", MT: "17", HasC: true, Chal: "x"})
+	add(Case{Prov: "h5m", MT: "18", HasC: true, Chal: hookSecret})
+	add(Case{Prov: "h5m", MT: "19", HasC: true, Chal: "x"})
 	// HTTP decoding
 	for _, h := range []string{"getmac", "getbad", "getempty", "postb64"} {
 		add(Case{Prov: "static", MT: "19", HTTP: h, HasC: true, Chal: staticSecret})
@@ -514,6 +772,9 @@ func corner() []*Case {
 
 func genCase(r *c.Rng, thorough bool) *Case {
 	ps := c.Pick(r, provSpecs)
+	for ps.CornerOnly && !(thorough && r.Chance(1, 40)) {
+		ps = c.Pick(r, provSpecs)
+	}
 	k := &Case{Prov: ps.Name}
 	// weighted towards the types that reach the dispatch (CSR types, CertRep)
 	k.MT = c.Pick(r, []string{"19", "19", "19", "17", "17", "17", "18", "18", "18", "3", "3", "20", "21", "22", "99"})
@@ -535,7 +796,7 @@ func genCase(r *c.Rng, thorough bool) *Case {
 		}
 		k.Key = c.Pick(r, keys)
 	}
-	k.Subj = r.Intn(3)
+	k.Subj = r.Intn(9)
 	k.Env = "csr"
 	if r.Chance(1, 8) {
 		k.Env = c.Pick(r, []string{"badsig", "garbage", "empty", "degen0", "degen1", "degen2"})
@@ -566,6 +827,21 @@ func genCase(r *c.Rng, thorough bool) *Case {
 	}
 	if r.Chance(1, 30) {
 		k.TID = "none"
+	}
+	if r.Chance(1, 10) {
+		k.Rcpt = c.Pick(r, []string{"ca", "prov", "other"})
+	}
+	if r.Chance(1, 8) {
+		switch r.Intn(4) {
+		case 0:
+			k.Path = c.Pick(r, []string{"slash", "rest", "deep", "root", "rootslash"})
+		case 1:
+			k.PName = c.Pick(r, []string{"nosuch", "acmeprov", "%25zz", "escaped", "escaped"})
+		case 2:
+			k.Op = c.Pick(r, []string{"GetCACert", "GetCACaps", "GetCACert", "GetCACaps", "none", "empty", "bogus", "badquery"})
+		case 3:
+			k.Meth = c.Pick(r, []string{"HEAD", "PUT", "DELETE"})
+		}
 	}
 	if r.Chance(1, 7) {
 		pool := []string{"o1", "o2", "o1", "o2", "oe"}
@@ -612,33 +888,45 @@ func Run(mode string) {
 
 	if mode == "model" && *replay == "" {
 		o.Case("facts", extractFacts())
+		o.Case("wiring", extractWiring())
 	}
 
-	ca, err := newTestCA()
-	if err != nil {
-		fmt.Fprintln(os.Stderr, "CA setup:", err)
-		os.Exit(2)
+	log.SetOutput(io.Discard) // the authority logs its SCEP validation findings; they are observed, not read
+	hooks := &hookServer{perID: map[string]int{}}
+	hooks.srv = httptest.NewServer(http.HandlerFunc(hooks.handle))
+	defer hooks.srv.Close()
+	cas := map[string]*testCA{}
+	for _, kind := range []string{"", "ec"} {
+		ca, err := newTestCA(kind, hooks)
+		if err != nil {
+			fmt.Fprintln(os.Stderr, "CA setup:", err)
+			os.Exit(2)
+		}
+		defer ca.close()
+		cas[kind] = ca
 	}
-	defer ca.close()
+	ca := cas[""]
 	cl, err := newClients(thorough)
 	if err != nil {
 		fmt.Fprintln(os.Stderr, "client setup:", err)
-		ca.close()
 		os.Exit(2)
 	}
-	w := &world{ca: ca, cl: cl}
+	w := &world{cas: cas, ca: ca, cl: cl}
 	// Init must leave Options.Webhooks as configured, however often it ran
 	initLines := func() {
 		for i := range provSpecs {
 			ps := &provSpecs[i]
 			o.Case(fmt.Sprintf("init inits=%d secret=%s hooks=%s", ps.PreInits+1, c.X(ps.Secret), hookField(ps, "")),
-				"init webhooks="+ca.webhooksAfterInit(ps.Name))
+				"init webhooks="+cas[ps.CA].webhooksAfterInit(ps.Name))
 		}
 	}
 	if mode == "model" && *replay == "" {
 		initLines()
 	}
 	emit := func(k *Case) {
+		if ps := specByName(k.Prov); mode == "spec" && ps != nil && ps.CornerOnly {
+			return // the slow webhook-retry configurations are driven in stage pkiop only
+		}
 		line, impl, specImpl, specWant, ok := w.run(k)
 		if !ok {
 			return
@@ -658,6 +946,10 @@ func Run(mode string) {
 		for _, l := range strings.Split(string(data), "\n") {
 			if strings.HasPrefix(l, "facts") && mode == "model" {
 				o.Case("facts", extractFacts())
+				continue
+			}
+			if strings.HasPrefix(l, "wiring") && mode == "model" {
+				o.Case("wiring", extractWiring())
 				continue
 			}
 			if strings.HasPrefix(l, "init ") && mode == "model" {
